@@ -129,17 +129,17 @@ func bulk(w *rec.Writer, seed uint64) {
 	}
 	defer rn.Close()
 	r := rec.NewRand(seed)
-	for i := 0; i < 4; i++ {
+	for i := 0; i < 5; i++ {
 		mode := 1
-		if i == 3 {
-			mode = 0
+		if i >= 3 {
+			mode = 0 // twice through the command layer: 99 / 100 / 101 items against the limit of 100
 		}
 		op := sg.GenBulk(r, rn.Present(), mode)
 		op.Tick = i + 1
 		if i == 2 {
 			op.Crash = true
 		}
-		rn.Do(op, i == 3)
+		rn.Do(op, i == 4)
 	}
 	countOps(w, rn)
 	w.Stat("histories_bulk", 1)
@@ -188,7 +188,7 @@ func main() {
 		switch {
 		case i%5 == 3:
 			faults(w, s)
-		case i%40 == 7:
+		case i%20 == 7:
 			bulk(w, s)
 		default:
 			p := sg.Profiles[r.Intn(len(sg.Profiles))]
